@@ -263,7 +263,7 @@ class _Conv:
         if tn in BINOPS and BINOPS[tn]:
             return X("bin", BINOPS[tn], self.expr(n.operand1), self.expr(n.operand2),
                      line=line)
-        if tn.endswith("BinopNode") and hasattr(n, "operator"):
+        if tn.endswith("BinopNode") and tn != "BoolBinopNode" and hasattr(n, "operator"):
             return X("bin", n.operator, self.expr(n.operand1), self.expr(n.operand2),
                      line=line)
         if tn == "UnaryMinusNode":
